@@ -18,11 +18,11 @@ TopComp(w) == CHOOSE c \in DOMAIN w.level : w.level[c] = 0
 Divisors(n) == {d \in 1..n : n % d = 0}
 
 Idle == [pc |-> 0, dir |-> "down", idx |-> <<>>, rd |-> <<>>, wr |-> <<>>, macs |-> 0,
-         valid |-> <<>>, step |-> 0, since |-> <<>>, first |-> <<>>, last |-> <<>>, live |-> <<>>]
+         valid |-> <<>>, step |-> 0, since |-> <<>>, first |-> <<>>, last |-> <<>>, live |-> <<>>, pts |-> <<>>]
 
 SetX(x) == /\ pc' = x.pc /\ dir' = x.dir /\ idx' = x.idx /\ rd' = x.rd /\ wr' = x.wr
            /\ macs' = x.macs /\ valid' = x.valid /\ step' = x.step /\ since' = x.since /\ first' = x.first
-           /\ last' = x.last /\ live' = x.live
+           /\ last' = x.last /\ live' = x.live /\ pts' = x.pts
 
 \* the backing holders: every tensor in the outermost memory, in the world's tensor order
 Backing(w) == [i \in 1..Len(w.tensors) |-> [kind |-> "S", mem |-> TopComp(w), t |-> w.tensors[i]]]
@@ -32,7 +32,7 @@ Init ==
   /\ nodes = Backing(W)
   /\ phase = "build"
   /\ pc = 0 /\ dir = "down" /\ idx = <<>> /\ rd = <<>> /\ wr = <<>> /\ macs = 0
-  /\ valid = <<>> /\ step = 0 /\ since = <<>> /\ first = <<>> /\ last = <<>> /\ live = <<>>
+  /\ valid = <<>> /\ step = 0 /\ since = <<>> /\ first = <<>> /\ last = <<>> /\ live = <<>> /\ pts = <<>>
 
 HeldIn(t) == {nodes[j].mem : j \in {i \in 1..Len(nodes) : IsHolder(nodes[i]) /\ nodes[i].t = t}}
 LastLevel(t) == Max({W.level[m] : m \in HeldIn(t)})
@@ -82,10 +82,18 @@ Report ==
 Emit == phase = "done" => PrintT(ToJson(Report))
 
 \* sanity invariants of the execution itself
+\* every point of the iteration space is computed exactly once
+RECURSIVE BoundProd(_, _)
+BoundProd(w, S) == IF S = {} THEN 1 ELSE LET r == CHOOSE y \in S : TRUE IN w.bound[r] * BoundProd(w, S \ {r})
+ExactlyOnce ==
+  /\ Cardinality(DOMAIN pts) = BoundProd(W, DOMAIN W.bound)
+  /\ \A q \in DOMAIN pts : pts[q] = 1 /\ \A r \in DOMAIN W.bound : q[r] \in 0..(W.bound[r]-1)
+
 ExecOK ==
   phase = "done" =>
     /\ macs = step
     /\ WellFormed(W, nodes)
+    /\ ExactlyOnce
 
 \* Role-A lemma for C06: the streaming footprint never under-reserves the element-level
 \* peak, and never exceeds the LoopTree notation's tile sizes.
